@@ -49,6 +49,10 @@ Init == l = 1 /\ cfg = [tr |-> -1] /\ rows = <<>> /\ got = FALSE /\ pendS = <<>>
 \* processed before the next one).  got = the last row already produced its result.
 \* The channel must carry the same results as the sink, in the same order (it may lag behind).
 Burst == "burst" \in DOMAIN cfg /\ cfg.burst = 1      \* rows handed in without waiting: results must come in emission order
+\* known deviation ExpansionReordersRows (KNOWN_FINDINGS.json): only in unthrottled bursts under the expand strategy
+ReorderDev == Burst /\ "expand" \in DOMAIN cfg /\ cfg.expand = 1 /\ "ExpansionReordersRows" \in Dev
+Later(q, r) == {j \in 2..Len(q) : RowCode(r, rows[q[j]]) = ""}
+Without(q, j) == SubSeq(q, 1, j - 1) \o SubSeq(q, j + 1, Len(q))
 SinkMissing == rows # <<>> /\ ~got /\ Passes(rows[Len(rows)]) /\ ~WhereOpen(rows[Len(rows)])
 
 Next ==
@@ -74,6 +78,11 @@ Next ==
         IF c = "" THEN
            /\ pendS' = Tail(pendS)
            /\ UNCHANGED <<cfg, rows, got, pendC, dead>>
+        ELSE IF ReorderDev /\ Len(e.rows) = 1 /\ Later(pendS, e.rows[1]) # {} THEN
+           \* known defect: a buffer expansion lets the consumer overtake migrated rows; the result is that of a LATER pending row
+           /\ PrintT(<<"DEV", cfg.tr, l, "ExpansionReordersRows">>)
+           /\ pendS' = Without(pendS, CHOOSE j \in Later(pendS, e.rows[1]) : \A k \in Later(pendS, e.rows[1]) : j <= k)
+           /\ UNCHANGED <<cfg, rows, got, pendC, dead>>
         ELSE Reject("sink_" \o c) /\ UNCHANGED <<cfg, rows, got, pendS, pendC>>
      ELSE IF e.e = "out" THEN
         LET row == rows[Len(rows)]
@@ -91,6 +100,10 @@ Next ==
                  ELSE IF pendC = <<>> THEN "unexpected_result"
                  ELSE RowCode(e.rows[1], rows[Head(pendC)]) IN
         IF c = "" THEN pendC' = Tail(pendC) /\ UNCHANGED <<cfg, rows, got, pendS, dead>>
+        ELSE IF ReorderDev /\ Len(e.rows) = 1 /\ Later(pendC, e.rows[1]) # {} THEN
+           /\ PrintT(<<"DEV", cfg.tr, l, "ExpansionReordersRows">>)
+           /\ pendC' = Without(pendC, CHOOSE j \in Later(pendC, e.rows[1]) : \A k \in Later(pendC, e.rows[1]) : j <= k)
+           /\ UNCHANGED <<cfg, rows, got, pendS, dead>>
         ELSE Reject("channel_" \o c) /\ UNCHANGED <<cfg, rows, got, pendS, pendC>>
      ELSE IF e.e = "ret" THEN
         \* EmitSync returned: the result (or nil) for the row just handed in; the sink saw it first
